@@ -250,69 +250,7 @@ func runC08(c *Ctx) {
 		mf := p.Field("adapter", "SessionToPersist", "MissedPackets")
 		sts := findInstrs(fn, fieldStorePred(mf))
 		c.Ob("C08-D3", name+"/returns-missed", fn.Pos(), len(sts) == 1 && strings.Contains(Term(sts[0].(*ssa.Store).Val), "missedPackets"), "the returned session must carry the collected missed packets")
-		sip := p.Fn("adapter", "shouldIncludePacket")
-		var calls []string
-		for _, cs := range Calls(sip) {
-			if cs.Common().IsInvoke() {
-				calls = append(calls, Term(cs.Common().Value)+"."+cs.Common().Method.Name()+"("+func() string {
-					if len(cs.Common().Args) > 0 {
-						return Term(cs.Common().Args[0])
-					}
-					return ""
-				}()+")")
-			}
-		}
-		need := []string{"opts.Rooms.Contains([", "opts.Rooms.Cardinality()", "opts.Except.Contains(["}
-		okS := true
-		for _, n := range need {
-			f := false
-			for _, cl := range calls {
-				if strings.HasPrefix(cl, n) {
-					f = true
-				}
-			}
-			okS = okS && f
-		}
-		c.Ob("C08-D3", "adapter.shouldIncludePacket/tests", sip.Pos(), okS, fmt.Sprintf("shouldIncludePacket must test target rooms (or none given) and excluded rooms against the session's rooms; calls: %v", calls))
-		// every session room is tested against the exclusions: the loop around Except.Contains is left
-		// only when the rooms are exhausted or an exclusion matched
-		for _, ex := range findInstrs(sip, setCallPred("Contains", `opts\.Except`)) {
-			okExit := true
-			detail := ""
-			for _, e := range loopExits(ex.Block()) {
-				ifi, isIf := e.from.Instrs[len(e.from.Instrs)-1].(*ssa.If)
-				if !isIf {
-					continue
-				}
-				ct := Term(ifi.Cond)
-				takenTrue := e.from.Succs[0] == e.to
-				switch {
-				case strings.Contains(ct, "idx<") && !takenTrue:
-				case strings.HasPrefix(ct, "opts.Except.Contains(") && takenTrue:
-				default:
-					okExit = false
-					detail = fmt.Sprintf("the exclusion loop is also left when `%s` is %v", ct, takenTrue)
-				}
-			}
-			c.Ob("C08-D3", "adapter.shouldIncludePacket/excluded-for-every-room", ex.Pos(), okExit && inLoop(ex.Block()), "every room of the session must be tested against opts.Except; "+detail+": a session in an excluded room is replayed the packet when one of its other rooms matched first")
-		}
-		rt := soleReturnTerm(sip)
-		_ = rt
-		// an exclusion match can never yield true
-		exT := false
-		for _, b := range sip.Blocks {
-			if ret, isR := b.Instrs[len(b.Instrs)-1].(*ssa.Return); isR && len(ret.Results) == 1 && Term(ret.Results[0]) != "false" {
-				if reach, _ := PrunedCanReach(sip, nil, []Assume{{`opts\.Except\.Contains\(\[.*\]\)`, true}}, func(in ssa.Instruction) bool { return in == ret }, nil); reach {
-					// reachable with an exclusion matched: the returned value must then be false (phi edge)
-					if ph, isPhi := ret.Results[0].(*ssa.Phi); !isPhi || !strings.Contains(Term(ph), "false") {
-						if !strings.Contains(Term(ret.Results[0]), "φ(") {
-							exT = true
-						}
-					}
-				}
-			}
-		}
-		c.Ob("C08-D3", "adapter.shouldIncludePacket/excluded-never-included", sip.Pos(), !exT, "shouldIncludePacket can return a non-false constant although an exclusion matched")
+		replayFilterRule(c, "C08-D3")
 	}
 
 	c.Rule("C08-D4", "persist/restore ordering: on a recoverable disconnect the socket's rooms are read and the session persisted before leaveAll; the session carries sid, pid and those rooms; a restored socket takes sid, pid and rooms from the session and is the only kind marked recovered; RestoreSession is asked with the client's pid and offset", 10)
@@ -507,4 +445,73 @@ func runC08(c *Ctx) {
 		so := CallsTo(Calls(ce), `\(\*sio\.clientSocket\)\.setLastOffset`)
 		c.Ob("C08-D5", "sio.clientSocket.callEvent/records-offset", ce.Pos(), len(so) >= 1, "the client never records an offset")
 	}
+}
+
+// replayFilterRule (C08-D3, shared with C04-D7): shouldIncludePacket — the filter that decides which logged broadcasts
+// a recovering session is replayed — tests targets and exclusions against every room of the session.
+func replayFilterRule(c *Ctx, rule string) {
+	p := c.P
+		sip := p.Fn("adapter", "shouldIncludePacket")
+		var calls []string
+		for _, cs := range Calls(sip) {
+			if cs.Common().IsInvoke() {
+				calls = append(calls, Term(cs.Common().Value)+"."+cs.Common().Method.Name()+"("+func() string {
+					if len(cs.Common().Args) > 0 {
+						return Term(cs.Common().Args[0])
+					}
+					return ""
+				}()+")")
+			}
+		}
+		need := []string{"opts.Rooms.Contains([", "opts.Rooms.Cardinality()", "opts.Except.Contains(["}
+		okS := true
+		for _, n := range need {
+			f := false
+			for _, cl := range calls {
+				if strings.HasPrefix(cl, n) {
+					f = true
+				}
+			}
+			okS = okS && f
+		}
+		c.Ob(rule, "adapter.shouldIncludePacket/tests", sip.Pos(), okS, fmt.Sprintf("shouldIncludePacket must test target rooms (or none given) and excluded rooms against the session's rooms; calls: %v", calls))
+		// every session room is tested against the exclusions: the loop around Except.Contains is left
+		// only when the rooms are exhausted or an exclusion matched
+		for _, ex := range findInstrs(sip, setCallPred("Contains", `opts\.Except`)) {
+			okExit := true
+			detail := ""
+			for _, e := range loopExits(ex.Block()) {
+				ifi, isIf := e.from.Instrs[len(e.from.Instrs)-1].(*ssa.If)
+				if !isIf {
+					continue
+				}
+				ct := Term(ifi.Cond)
+				takenTrue := e.from.Succs[0] == e.to
+				switch {
+				case strings.Contains(ct, "idx<") && !takenTrue:
+				case strings.HasPrefix(ct, "opts.Except.Contains(") && takenTrue:
+				default:
+					okExit = false
+					detail = fmt.Sprintf("the exclusion loop is also left when `%s` is %v", ct, takenTrue)
+				}
+			}
+			c.Ob(rule, "adapter.shouldIncludePacket/excluded-for-every-room", ex.Pos(), okExit && inLoop(ex.Block()), "every room of the session must be tested against opts.Except; "+detail+": a session in an excluded room is replayed the packet when one of its other rooms matched first")
+		}
+		rt := soleReturnTerm(sip)
+		_ = rt
+		// an exclusion match can never yield true
+		exT := false
+		for _, b := range sip.Blocks {
+			if ret, isR := b.Instrs[len(b.Instrs)-1].(*ssa.Return); isR && len(ret.Results) == 1 && Term(ret.Results[0]) != "false" {
+				if reach, _ := PrunedCanReach(sip, nil, []Assume{{`opts\.Except\.Contains\(\[.*\]\)`, true}}, func(in ssa.Instruction) bool { return in == ret }, nil); reach {
+					// reachable with an exclusion matched: the returned value must then be false (phi edge)
+					if ph, isPhi := ret.Results[0].(*ssa.Phi); !isPhi || !strings.Contains(Term(ph), "false") {
+						if !strings.Contains(Term(ret.Results[0]), "φ(") {
+							exT = true
+						}
+					}
+				}
+			}
+		}
+		c.Ob(rule, "adapter.shouldIncludePacket/excluded-never-included", sip.Pos(), !exT, "shouldIncludePacket can return a non-false constant although an exclusion matched")
 }
